@@ -232,8 +232,9 @@ ClientRefresh(mode) ==
                                        /\ tmr' = Arm(now + E2 + G, nR, nP, nO)
                                        /\ out' = Append(out, F("refresh", 0)) /\ UNCHANGED closing
                  \* no expiration any more (the code leaves c.exp as it was and closes the connection later)
-                 [] mode = "zero"   -> /\ exp' = 0 /\ nX' = 0 /\ dl' = Inf
-                                       /\ tmr' = Arm(0, nR, nP, nO)
+                 [] mode = "zero"   -> /\ IF exp = 0 THEN UNCHANGED <<exp, nX, tmr>>     \* nothing to remove
+                                                     ELSE exp' = 0 /\ nX' = 0 /\ tmr' = Arm(0, nR, nP, nO)
+                                       /\ dl' = Inf
                                        /\ out' = Append(out, F("refresh", 0)) /\ UNCHANGED closing
                  [] mode = "expired" -> /\ Spawn(Expired) /\ UNCHANGED <<exp, nX, tmr, dl, out>>
   /\ UNCHANGED <<cfg, now, status, auth, unusable, nR, nP, nO, lp, sub, sdl, owed>>
